@@ -83,7 +83,35 @@ def judge(ex, ref, case):
                 "justifications_checked": 0, "two_call_histories": int(bool(ex.spec.get("then")))}
     starts = [i for i, e in enumerate(log) if e[0] == "msg" and e[1].command == "_start_suspender"]
     params = ex.spec.get("_params", {})
-    for si, s0 in enumerate(starts):
+    # overlapping suspensions (a second one starts before the first is released): the exact interleaving of the two
+    # helper plans is not documented, so only the hold itself is judged: from the first suspension start until the last
+    # release nothing but helper messages may be processed
+    def _rel_of(i0):
+        ev0 = getattr(log[i0][1].args[3], "__self__", None)
+        return next((i for i in range(len(log)) if log[i][0] == "release" and log[i][3] is ev0), None)
+
+    def _helper_end(i0):
+        r = next((i for i in range(i0, len(log)) if log[i][0] == "msg" and log[i][1].command == "_resume_from_suspender"), None)
+        if r is None:
+            return len(log)
+        return next((i for i in range(r, len(log)) if log[i][0] == "msg" and log[i][1].command == "rewindable"), len(log))
+
+    overlapping = len(starts) > 1 and any(_helper_end(starts[k - 1]) >= starts[k] for k in range(1, len(starts)))
+    if overlapping:
+        counters["suspensions_judged"] += len(starts)
+        rels = [r for r in (_rel_of(s0) for s0 in starts) if r is not None]
+        hi = max(rels) if len(rels) == len(starts) else None
+        if hi is not None:
+            bad = [e[1] for e in log[starts[0]:hi] if e[0] == "msg" and e[1].command not in
+                   ("rewindable", "_start_suspender", "wait_for", "_resume_from_suspender")
+                   and not (e[1].command == "null" and e[1].args and str(e[1].args[0])[:3] in ("pre", "pos"))]
+            if bad and not any(e[0] == "state" and e[1] in ("aborting", "stopping", "halting") for e in log[starts[0]:hi]):
+                problems.append(("plan-message-during-overlapping-suspensions",
+                                 f"{[b.command for b in bad][:5]} processed while a suspension was still in effect"))
+        starts_to_judge = []
+    else:
+        starts_to_judge = starts
+    for si, s0 in enumerate(starts_to_judge):
         m = log[s0][1]
         pre_plan, post_plan, justification, fut = m.args
         counters["suspensions_judged"] += 1
